@@ -267,9 +267,11 @@ func run(ctx *Ctx, f propFn, evidence string) (code int) {
 		ctx.R.Stat("functions_arm64", len(ctx.k2.Funcs))
 	}
 	ctx.R.Stat("view", "tree as written")
-	if ctx.R.Failing(ctx.Verif) && os.Getenv("GOOMVET_NO_NORMALISE") == "" {
+	strict := os.Getenv("GOOMVET_POLICY") != "either"
+	if (ctx.R.Failing(ctx.Verif) || strict) && os.Getenv("GOOMVET_NO_NORMALISE") == "" {
 		// decide again on the normalised view: a proof there is a proof about the tree (inline.go)
 		if nc := ctx.normalised(); nc != nil {
+			v0Failing := ctx.R.Failing(ctx.Verif)
 			r1 := NewReport(ctx.R.Prop, ctx.R.Tier)
 			nc.R = r1
 			r1.Stable = func(s string) string {
@@ -296,7 +298,9 @@ func run(ctx *Ctx, f propFn, evidence string) (code int) {
 					}
 				}
 			}
-			if okRun && !r1.Failing(ctx.Verif) {
+			if okRun && (!r1.Failing(ctx.Verif) || !v0Failing) {
+				// the normalised view is the reference whenever it exists: helpers that are not part of the pinned tree
+				// can hide the statements a rule looks for, so a pass on the tree as written may be vacuous
 				r1.Stat("packages_amd64", len(nc.k1.Pkgs))
 				r1.Stat("functions_amd64", len(nc.k1.Funcs))
 				r1.Stat("view", "normalised: "+nc.normNote+"; the tree as written left "+ctx.R.Summary()+"; positions refer to the normalised text")
